@@ -171,6 +171,24 @@ pub fn malloc_in_use() -> usize {
     }
 }
 
+/// coverage builds only (development aid): write the counters out now, so that a process that later dies on a
+/// known finding does not take the coverage of everything it ran before with it
+pub fn flush_coverage() {
+    #[cfg(verif_cov)]
+    {
+        extern "C" {
+            fn __llvm_profile_write_file() -> i32;
+            fn __llvm_profile_reset_counters();
+        }
+        let _g = Excl::new();
+        unsafe {
+            // the file name carries %m (merge mode): each write adds the in-memory counters to the file, so they are reset after it
+            __llvm_profile_write_file();
+            __llvm_profile_reset_counters();
+        }
+    }
+}
+
 pub fn cpu_us() -> u64 {
     #[cfg(miri)]
     {
